@@ -1,5 +1,6 @@
 import FxVerif.Proofs.C13Owed
 import FxVerif.Proofs.C13StakeLe
+import FxVerif.Proofs.C13Cap
 /-!
 # C13 — oracle registry one-to-one; stake recoverable; only missed signing is slashed
 
@@ -23,6 +24,12 @@ theorem guard_code_facts : GuardCodeOk := by decide
 
 /-- governance removal: 30 % power-change cap of the expected shape, list length bounded by `MaxOracleSize` -/
 theorem cap_code_facts : powerChangeCap = 30 ∧ maxOracleSize = 100 ∧ capShapeOk = true := by decide
+
+/-- the cap guard of `UpdateProposalOracles`, part by part, as read off the AST (not a substring test): the threshold is
+`30 · totalPower / 100` of the power the loop itself summed over the ONLINE records (not the stored last total power), the
+removed power is summed over the ONLINE records on the old list that the new list drops, the update is refused when that is
+positive and `≥` the threshold, and the refusing `if` precedes `SetProposalOracle` and every `UnbondedOracleFromProposal` -/
+theorem cap_guard_code_facts : CapCodeOk := by unfold CapCodeOk; decide
 
 /-- `UnbondedOracle` refuses while an unbonding delegation still EXISTS — also one whose entries have reached their
 completion time but have not been paid out by the staking end-blocker yet — and not when there is none -/
@@ -184,6 +191,58 @@ theorem online_requires_approval (p : Params) (bals : Store Nat Nat) (ops : List
   have hf := run_fit slashing_code_facts guard_code_facts ops _ (init_fit p bals)
   exact hf.onl (a, r) (mem_of_get _ _ _ hr) hon
 
+/-! ## the power-change cap of a governance update
+
+`govUpdate` interprets the REGENERATED guard (`capRefuses`); with `cap_guard_code_facts` it says: -/
+
+/-- **what the cap is measured against**: the threshold of the model's (= the code's) guard is 30 % of the combined power of
+the ONLINE oracle records at the moment of the update, and the power held against it is the combined power of the online
+records the update takes off the list -/
+theorem cap_measured_against_online_power (s : State) (list : List Nat) :
+    capThreshold s = 30 * totalOnlinePower s / 100 ∧ capRemoved s list = removedPower s list := by
+  refine ⟨?_, capRemoved_eq cap_guard_code_facts s list⟩
+  simp [capThreshold, capTotal_eq cap_guard_code_facts, cap_guard_code_facts.1, cap_guard_code_facts.2.1]
+
+/-- **a change above the cap is refused, in every state**: a governance update that would take away online power `r > 0` with
+`100·r ≥ 30·(online power)` fails and changes NOTHING (no list update, no undelegation, nobody taken offline) -/
+theorem gov_update_refused_above_cap (s : State) (list : List Nat) (hpos : 0 < removedPower s list)
+    (habove : 30 * totalOnlinePower s ≤ 100 * removedPower s list) :
+    (govUpdate s list).1 = s ∧ (govUpdate s list).2 ≠ .ok := by
+  have href : capRefuses s list = true :=
+    (capRefuses_iff cap_guard_code_facts s list).mpr ⟨hpos, by omega⟩
+  rcases govUpdate_cases s list with ⟨h1, h2, _⟩ | ⟨_, _, h3, _⟩
+  · exact ⟨h1, h2⟩
+  · rw [href] at h3; cases h3
+
+/-- **a successful governance update stays below the cap, in every state**: the online power it takes away is 0 or strictly
+less than 30 % of the online power before (`100·r < 30·total`); exactly that power goes offline — the online power after
+plus the removed power is the online power before — so unless nothing was removed MORE THAN 70 % of the online power
+remains online; and the list is at most `MaxOracleSize` long -/
+theorem gov_update_ok_below_cap (s : State) (list : List Nat) (hok : (govUpdate s list).2 = .ok) :
+    (removedPower s list = 0 ∨ 100 * removedPower s list < 30 * totalOnlinePower s) ∧
+    totalOnlinePower (govUpdate s list).1 + removedPower s list = totalOnlinePower s ∧
+    (totalOnlinePower (govUpdate s list).1 = totalOnlinePower s ∨
+      70 * totalOnlinePower s < 100 * totalOnlinePower (govUpdate s list).1) ∧
+    list.length ≤ maxOracleSize := by
+  rcases govUpdate_cases s list with ⟨_, h2, _⟩ | ⟨_, hlen, hcap, s2, ho, hp, hres, hrp, _⟩
+  · exact absurd hok h2
+  · have hnot : ¬ (0 < removedPower s list ∧ 30 * totalOnlinePower s / 100 ≤ removedPower s list) := by
+      intro h; have := (capRefuses_iff cap_guard_code_facts s list).mpr h; rw [this] at hcap; cases hcap
+    have hsplit : totalOnlinePower (govUpdate s list).1 + removedPower s list = totalOnlinePower s := by
+      have := online_split s.p (dropped s list) (Store.vals s.oracles)
+      simp only [totalOnlinePower, onlineOracles, removedPower, hres, hrp, hp, ho, vals_mapVals]
+      exact this
+    have h1 : removedPower s list = 0 ∨ 100 * removedPower s list < 30 * totalOnlinePower s := by
+      by_cases h0 : removedPower s list = 0
+      · exact .inl h0
+      · right
+        have : ¬ 30 * totalOnlinePower s / 100 ≤ removedPower s list := fun h => hnot ⟨by omega, h⟩
+        omega
+    refine ⟨h1, hsplit, ?_, by omega⟩
+    rcases h1 with h1 | h1
+    · left; omega
+    · right; omega
+
 /-! ## penalty -/
 
 /-- **penalty_le_stake** (any record, any parameters) -/
@@ -284,6 +343,42 @@ theorem stake_recoverable_reachable (p : Params) (bals : Store Nat Nat) (ops : L
   obtain ⟨h1, h2, _, _, h5, _⟩ := stake_recoverable s a r hr hoff hoffl hpend hsl
   exact ⟨h1, h2, hbal, h5⟩
 
+/-! ### with validator slashing
+
+A validator slash takes part of the stake away for good (that is what it is for); what the C13 code owes the oracle after
+that is the rest.  The two theorems below hold for EVERY history, validator slashes included. -/
+
+/-- **the only way a removed, matured oracle can fail to unbond is an uncovered penalty** (every state): off the list, offline,
+no unbonding entry left — then `UnbondedOracle` either succeeds (`stake_recoverable`) or fails with "not sufficient slash
+amount", changes nothing, and the delegate address holds less than the penalty; without validator slashing that cannot
+happen (`stake_recoverable_reachable`: the balance is at least the recorded stake ≥ penalty), so it is exactly the case
+"validator slash took more of the stake than the penalty leaves".  The record is then NOT lost: once the delegate address
+has been topped up by the shortfall (`fund`, anybody can send coins there) the unbond succeeds and pays the balance minus
+the penalty, i.e. 0 when the top-up was exactly the shortfall -/
+theorem unbond_refused_only_for_unpaid_penalty (s : State) (o : Nat) (r : Oracle)
+    (hr : Store.get s.oracles o = some r) (hp : s.proposal.contains o = false) (hoff : r.online = false)
+    (hmat : s.ubds.any (fun u => u.oracle == o && u.val == r.val) = false) (hfail : (unbond s o).2 ≠ .ok) :
+    getBal s.dbal o < slashAmount s.p r ∧ unbond s o = (s, .err "slash-short") ∧
+    (unbond (step s (.fund o (slashAmount s.p r - getBal s.dbal o))).1 o).2 = .ok ∧
+    getBal (unbond (step s (.fund o (slashAmount s.p r - getBal s.dbal o))).1 o).1.bal o = getBal s.bal o := by
+  have hlt : getBal s.dbal o < slashAmount s.p r := by
+    by_cases h : slashAmount s.p r ≤ getBal s.dbal o
+    · exact absurd (stake_recoverable s o r hr hp hoff hmat h).1 hfail
+    · omega
+  have hb : ∀ im, unbondBlocked false im = false := by intro im; simp [unbondBlocked, unbond_code_fact]
+  have hp' : ¬ o ∈ s.proposal := by simpa using hp
+  refine ⟨hlt, ?_, ?_⟩
+  · unfold unbond
+    simp [hp', hr, hoff, hmat, hb, hlt]
+  · have hd : getBal (step s (.fund o (slashAmount s.p r - getBal s.dbal o))).1.dbal o = slashAmount s.p r := by
+      simp [step, getBal, get_set] at hlt ⊢; omega
+    have h := stake_recoverable (step s (.fund o (slashAmount s.p r - getBal s.dbal o))).1 o r
+      (by simpa [step] using hr) (by simpa [step] using hp) hoff (by simpa [step] using hmat)
+      (by rw [hd]; exact Nat.le_refl _)
+    refine ⟨h.1, ?_⟩
+    rw [h.2.1, hd]
+    simp [step]
+
 /-- before maturity the unbond is refused and nothing changes (the record that entitles the oracle to its stake stays) -/
 theorem unbond_waits_for_maturity (s : State) (o : Nat) (r : Oracle)
     (hr : Store.get s.oracles o = some r) (hp : s.proposal.contains o = false) (hoff : r.online = false)
@@ -311,6 +406,38 @@ theorem unbond_ok_leaves_no_unbonding_entry (s : State) (o : Nat) (r : Oracle) (
       · rename_i hb
         simp only [unbondBlocked, unbond_code_fact] at hb
         simpa using hb
+
+/-- **a successful unbond strands nothing in staking, for every history** (validator slashing, re-delegation, removal and
+re-approval included): in every reachable state, when `UnbondedOracle` succeeds for `a` there is no delegation from its
+delegate address to ANY validator (governance removal undelegated all of it, and a delegate address never delegates to a
+validator other than the recorded one) and no unbonding entry towards its validator — so deleting the record abandons no
+stake at the keyless delegate address -/
+theorem unbond_ok_strands_nothing_reachable (p : Params) (bals : Store Nat Nat) (ops : List Op) (a : Nat) (r : Oracle)
+    (hr : Store.get (run (init p bals) ops).oracles a = some r) (hok : (unbond (run (init p bals) ops) a).2 = .ok) :
+    (∀ v, Store.get (unbond (run (init p bals) ops) a).1.deleg (a, v) = none) ∧
+    (run (init p bals) ops).ubds.any (fun u => u.oracle == a && u.val == r.val) = false := by
+  have hi := run_stakeLe slashing_code_facts guard_code_facts ops (init p bals) (init_inv p bals) (init_fit p bals)
+    (init_stakeLe p bals)
+  refine ⟨?_, unbond_ok_leaves_no_unbonding_entry _ a r hr hok⟩
+  generalize run (init p bals) ops = s at hr hok hi
+  have hnp : a ∉ s.proposal := by
+    intro hin
+    unfold unbond at hok
+    simp [hin] at hok
+  have hnone : ∀ v, Store.get s.deleg (a, v) = none := by
+    intro v
+    cases hd : Store.get s.deleg (a, v) with
+    | none => rfl
+    | some t =>
+      obtain ⟨r', hr', hv⟩ := hi.own a v t hd
+      rw [hr] at hr'; injection hr' with hr'; subst hr'; subst hv
+      rw [hi.out a r hr hnp] at hd; cases hd
+  have hsame : (unbond s a).1.deleg = s.deleg := by
+    unfold unbond
+    simp only
+    repeat' split
+    all_goals rfl
+  intro v; rw [hsame]; exact hnone v
 
 /-- an unbonding entry pays the *delegate address of its oracle* when the block time reaches its completion time -/
 theorem maturity_pays_delegate_address (s : State) (t : Nat) (u : Ubd) (hu : s.ubds = [u]) (hc : u.completion ≤ t) :
@@ -433,6 +560,17 @@ example : (step (run (init pEx bEx) life) (.unbond 0)).2 = .ok := by decide
 example : getBal (step (run (init pEx bEx) life) (.unbond 0)).1.bal 0 = 5000 := by decide
 -- removing two of four equal oracles at once is refused by the 30 % cap
 example : (step (run (init pEx bEx) (life.take 5)) (.gov [2, 3])).2 = .err "cap" := by decide
+-- … `gov_update_refused_above_cap`: its hypotheses hold there (removed power 2·10 of 4·10 online: 100·20 ≥ 30·40), and the
+-- hypothesis of `gov_update_ok_below_cap` holds for the removal of ONE of four (10 of 40: 100·10 < 30·40; 30 of 40 remain)
+example : removedPower (run (init pEx bEx) (life.take 5)) [2, 3] = 20 ∧ totalOnlinePower (run (init pEx bEx) (life.take 5)) = 40 := by decide
+example : (govUpdate (run (init pEx bEx) (life.take 5)) [1, 2, 3]).2 = .ok ∧
+    removedPower (run (init pEx bEx) (life.take 5)) [1, 2, 3] = 10 ∧
+    totalOnlinePower (govUpdate (run (init pEx bEx) (life.take 5)) [1, 2, 3]).1 = 30 := by decide
+-- the boundary: with ten equal oracles the threshold is 30·100/100 = 30, so removing three (30 ≥ 30) is refused, two pass
+def tenBals : Store Nat Nat := (List.range 10).map (fun i => (i, 5000))
+def ten : List Op := .gov (List.range 10) :: (List.range 10).map (fun i => .bond i i i 0 100)
+example : (step (run (init pEx tenBals) ten) (.gov [3, 4, 5, 6, 7, 8, 9])).2 = .err "cap" ∧
+    (step (run (init pEx tenBals) ten) (.gov [2, 3, 4, 5, 6, 7, 8, 9])).2 = .ok := by decide
 -- duplicate bridger / external address are refused
 example : (step (run (init pEx bEx) (life.take 2)) (.bond 1 0 1 0 100)).2 = .err "bridger-bound" := by decide
 example : (step (run (init pEx bEx) (life.take 2)) (.bond 1 1 0 0 100)).2 = .err "ext-bound" := by decide
@@ -466,6 +604,21 @@ example : 0 < pEx.thr ∧ 0 ∈ (run (init pEx bEx) slashedToZero).proposal ∧
       Store.get (run (init pEx bEx) slashedToZero).deleg (0, 0), (ghOf (run (init pEx bEx) slashedToZero) 0).undel,
       (ghOf (run (init pEx bEx) slashedToZero) 0).sent) = (some (100, 0, true), none, 0, 100) ∧
     neverRemoved 0 (init pEx bEx) slashedToZero = false := by decide
+
+-- unbond_refused_only_for_unpaid_penalty: its hypotheses are met after a validator slash — oracle 0 (stake 100) misses a
+-- bridge call and is slashed by the end-blocker (penalty 80 %), its validator is slashed by half, governance removes it,
+-- the 50 that are left mature: `unbond` fails with slash-short (50 < 80); after a top-up of 30 it succeeds and pays 0
+def shortfall : List Op := [.gov [0, 1, 2, 3], .bond 0 0 0 0 100, .bond 1 1 1 0 100, .bond 2 2 2 1 100, .bond 3 3 3 1 100,
+  .mkcall, .conf .call 1 1 1 true, .conf .call 1 2 2 true, .conf .call 1 3 3 true, .block 5,
+  .conf .os 1 1 1 true, .conf .os 1 2 2 true, .conf .os 1 3 3 true, .conf .os 1 0 0 true, .block 5, .block 5,
+  .valslash 0 1 2, .gov [1, 2, 3], .block 101]
+example : ((Store.get (run (init pEx bEx) shortfall).oracles 0).map (fun r => (r.online, r.slashTimes, slashAmount pEx r)),
+    (run (init pEx bEx) shortfall).proposal.contains 0, (run (init pEx bEx) shortfall).ubds.any (fun u => u.oracle == 0),
+    getBal (run (init pEx bEx) shortfall).dbal 0, (unbond (run (init pEx bEx) shortfall) 0).2) =
+    (some (false, 1, 80), false, false, 50, .err "slash-short") := by decide
+example : (unbond (step (run (init pEx bEx) shortfall) (.fund 0 30)).1 0).2 = .ok := by decide
+-- unbond_ok_strands_nothing_reachable: `life` ends in a state in which oracle 0 unbonds successfully
+example : (unbond (run (init pEx bEx) life) 0).2 = .ok := by decide
 
 -- stake_recoverable_reachable: its hypotheses hold in the reachable state `life` (oracle 0 removed, matured)
 example : (run (init pEx bEx) life).proposal.contains 0 = false ∧
